@@ -301,7 +301,9 @@ class ParticleMultiBWR(ParticleLS):
         )
         self.coeff.set_fix_idx([[0, 0]], [1.0, 0.0])
 
-    def mass(self):
+    def get_mass(self):
+        # reference mass of the decay (q0 of the barrier factors): first member
+        # (a method named `mass` is shadowed by the instance attribute)
         return self.all_mass()[0]
 
     def get_barrier_factor(self, ls, q2, q02, d):
@@ -318,8 +320,11 @@ class ParticleMultiBWR(ParticleLS):
         all_width = self.all_width()
         l = min([i[0] for i in ls])
         dom = []
+        m1, m2 = [i.get_mass() for i in self.decay[0].outs]
         for m0, g0 in zip(all_mass, all_width):
-            dom.append(self.dom_fun(m, m0, g0, q2, q02, l, d))
+            # each member is a BWR with Gamma_k(m0_k) = Gamma0_k: own q0
+            q02_k = get_relative_p2(m0, m1, m2)
+            dom.append(self.dom_fun(m, m0, g0, q2, q02_k, l, d))
         dom = tf.stack(dom, axis=-1)
         ret = []
         bf = self.get_barrier_factor(ls, q2, q02, d)
